@@ -269,10 +269,28 @@ const prelude = `(set-option :produce-models true)
 // script had n commands. Only commands in the cone of influence of the goal
 // are kept (declarations and assertions that share symbols transitively).
 func (s *Script) Render(n int, hyp []string, goal string, getvals []string) string {
+	return s.render(n, hyp, goal, getvals, true)
+}
+
+// RenderFull keeps every assertion (used to obtain a complete model that also
+// satisfies preconditions outside the goal's cone of influence).
+func (s *Script) RenderFull(n int, hyp []string, goal string, getvals []string) string {
+	return s.render(n, hyp, goal, getvals, false)
+}
+
+func (s *Script) render(n int, hyp []string, goal string, getvals []string, cone bool) string {
 	var b strings.Builder
 	b.WriteString(prelude)
 	cmds := s.cmds[:n]
-	keep := coneOfInfluence(cmds, append(append([]string{}, hyp...), goal))
+	var keep []bool
+	if cone {
+		keep = coneOfInfluence(cmds, append(append([]string{}, hyp...), goal))
+	} else {
+		keep = make([]bool, len(cmds))
+		for i := range keep {
+			keep[i] = true
+		}
+	}
 	for i, c := range cmds {
 		if keep[i] {
 			b.WriteString(c)
@@ -563,11 +581,7 @@ func parseModel(out string) map[string]string {
 		if !ok || len(pr) != 2 {
 			continue
 		}
-		name, ok := pr[0].(string)
-		if !ok {
-			continue
-		}
-		m[name] = render(pr[1])
+		m[render(pr[0])] = render(pr[1])
 	}
 	return m
 }
